@@ -5,7 +5,7 @@ import ast
 from typing import Any, Optional
 
 from ..absint import AObj, AbsMutation, AbsRaise, ClassRef, EnumVal, Interp, OrdInt
-from ..core import AnalysisError, Ctx, loc
+from ..core import AnalysisError, Ctx, is_library_error, loc
 from ..model import ModelBuilder, freeze_model, rich_model, snapshot
 from ..pm import ClassInfo, ProgramModel
 
@@ -531,7 +531,7 @@ def genattr(pm: ProgramModel, ctx: Ctx, mb: ModelBuilder) -> None:
             out = exc.what
         except AbsMutation as exc:
             out = "mutation " + exc.what
-        ctx.check(out.startswith(("FlamaException", "flamapy")), "C19-INIT", f"missing-{missing}",
+        ctx.check(is_library_error(pm, out) or out.startswith("flamapy"), "C19-INIT", f"missing-{missing}",
                   loc(ci.unit.path, ci.methods["execute"].node),
                   f"a missing {missing} is reported as FlamaException",
                   bad=f"executing random attribute generation without a {missing}: {out} "
